@@ -45,6 +45,42 @@ REFLECT = {"<": ">", "<=": ">=", ">": "<", ">=": "<=", "==": "==", "!=": "!=", "
 ORDER_OPS = [">=", "<", "==", "!=", ">", "<=", "~="]
 
 
+def exotic_families(base):
+    """Spellings PEP 440 normalises to the same version, beyond trailing zeros: pre-, post- and
+    development releases, an explicit zero epoch, a non-zero epoch, local versions, the ``v`` prefix and
+    leading zeros.  One family = one version; the families of one base are neighbours in version order."""
+    a, b = base
+    return {
+        "rc": [f"{a}.{b}.0rc1", f"{a}.{b}rc1", f"{a}.{b}.0c1", f"{a}.{b}.0-rc.1", f"{a}.{b}.0RC1", f"{a}.{b}.0.rc1"],
+        "beta": [f"{a}.{b}.0b2", f"{a}.{b}b2", f"{a}.{b}.0beta2", f"{a}.{b}.0.b2"],
+        "alpha": [f"{a}.{b}.0a1", f"{a}.{b}a1", f"{a}.{b}.0alpha1"],
+        "post": [f"{a}.{b}.0.post1", f"{a}.{b}.post1", f"{a}.{b}.0-1", f"{a}.{b}.0post1", f"{a}.{b}.0.rev1"],
+        "dev": [f"{a}.{b}.dev0", f"{a}.{b}.0.dev0", f"{a}.{b}dev0", f"{a}.{b}.0.dev"],
+        "epoch0": [f"0!{a}.{b}", f"0!{a}.{b}.0", f"{a}.{b}", f"{a}.{b}.0", f"v{a}.{b}", f"0{a}.0{b}"],
+        "epoch1": [f"1!{a}.{b}", f"1!{a}.{b}.0", f"01!{a}.{b}"],
+        "local": [f"{a}.{b}+local", f"{a}.{b}.0+local", f"{a}.{b}+LOCAL", f"{a}.{b}.0+local.0"],
+        "micro_rc": [f"{a}.{b}.1rc1", f"{a}.{b}.1.rc1", f"{a}.{b}.1c1"],
+    }
+
+
+_EXOTIC_EQUIV = None
+
+
+def exotic_equivalents(value):
+    """The other spellings of an exotic literal's family (empty list for ordinary literals)."""
+    global _EXOTIC_EQUIV
+    if _EXOTIC_EQUIV is None:
+        _EXOTIC_EQUIV = {}
+        for base in VERSION_BASES:
+            for fam, forms in exotic_families(base).items():
+                if fam == "local":
+                    # "+local" and "+local.0" are different versions: only the first three are one version
+                    forms = forms[:3]
+                for f in forms:
+                    _EXOTIC_EQUIV.setdefault(f, [x for x in forms if x != f])
+    return _EXOTIC_EQUIV.get(value, [])
+
+
 def atom(name, op, value, flipped=False):
     return ["atom", name, op, value, bool(flipped)]
 
@@ -158,6 +194,13 @@ def gen_version_atom(rng, cfg):
         return atom(name, rng.choice(["==", "=="] + ["!="]), value, rng.random() < cfg["p_flip"])
     op = rng.choice(cfg["order_ops"])
     value = spell_version(rng, name, base, p_long_pv=cfg["p_long_pv"])
+    if cfg.get("p_exotic") and rng.random() < cfg["p_exotic"]:
+        fams = exotic_families(base)
+        fam = rng.choice(cfg["exotic_families"])
+        if fam == "local" and op not in ("==", "!="):
+            op = rng.choice(["==", "!="])  # PEP 440: local versions only with == / !=
+        value = rng.choice(fams[fam][:3] if rng.random() < 0.7 else fams[fam])
+        return atom(name, op, value, rng.random() < cfg["p_flip"])
     if op == "~=" and "." not in value:
         # "~= 3" is rejected by packaging: keep as a natural failure at a low rate only
         if rng.random() > cfg["p_invalid"]:
@@ -243,7 +286,8 @@ def _parse_release(value):
 def _respell_value(rng, name, value):
     rel = _parse_release(value)
     if rel is None:
-        return value
+        eq = exotic_equivalents(value)
+        return rng.choice(eq) if eq else value
     forms = {value}
     # strip trailing zeros / add trailing zeros
     r = list(rel)
@@ -460,6 +504,10 @@ def gen_config(rng, fault_class=None):
         "shims": rng.random() < 0.5,
         "style": {"q": rng.choice(['"', '"', "'"]), "sp": rng.random() < 0.15, "par": rng.random() < 0.2},
     }
+    # versions beyond X.Y[.Z]: pre/post/dev releases, epochs, local versions, "v" prefix, leading zeros
+    cfg["p_exotic"] = rng.choice([0.0, 0.0, 0.0, 0.2, 0.5])
+    cfg["exotic_families"] = rng.sample(
+        ["rc", "beta", "alpha", "post", "dev", "epoch0", "epoch1", "local", "micro_rc"], k=rng.choice([1, 2, 3]))
     if heavy:
         # lock-file sized markers: a dozen atoms in four or five alternatives, few operations; this is
         # where the normalisation cascades get deep enough for budgets, guards and recursion limits
@@ -955,11 +1003,18 @@ def program_for_run(verif_seed, shard, run, fault_class=None):
 # --------------------------------------------------------------------------
 
 
+import re as _re
+
+
 def _version_points(values):
     pts = set()
     for value in values:
         for part in value.replace("*", "0").split(","):
             rel = _parse_release(part.strip().rstrip("."))
+            if not rel:
+                # exotic literal: the release segment after an optional epoch / "v"
+                m = _re.match(r"\s*(?:\d+!)?v?(\d+(?:\.\d+)*)", part)
+                rel = _parse_release(m.group(1)) if m else None
             if not rel:
                 continue
             rel = (rel + [0, 0, 0])[:3]
@@ -1028,6 +1083,7 @@ def make_envs(steps, cap=24):
         # keep an evenly spread subset, deterministic
         stride = len(vpts) / n
         vpts = [vpts[int(i * stride)] for i in range(n)]
+    exotic = any(_re.search(r"[A-Za-z!+-]", v) for v in vvalues)
     envs = []
     for i in range(n):
         major, minor, micro = vpts[i % len(vpts)]
@@ -1040,6 +1096,9 @@ def make_envs(steps, cap=24):
         if i % 6 == 5:
             # a pre-release interpreter of that version (3.11.0rc1 sorts before 3.11.0)
             env["python_full_version"] = f"{major}.{minor}.{micro}" + ("rc1" if i % 12 == 5 else "b2")
+        elif exotic and i % 2 == 1:
+            # programs with pre/post/dev/local literals: interpreters that sit between those versions
+            env["python_full_version"] = f"{major}.{minor}.{micro}" + ("rc1", "a1", "rc2", "+local", "b2", ".dev0")[(i // 2) % 6]
         for k, (name, vals) in enumerate(sorted(strings.items())):
             env[name] = vals[(i * (k + 2) + k) % len(vals)]
         env["extra"] = extras[(i * 3) % len(extras)]
